@@ -395,4 +395,63 @@ let () =
       let o = row.r_sto in
       wz o.st_tsc; wb o.st_gs; wz o.st_dap; wfl o.st_th;
       wopt (fun r -> wz r.s_season; wz r.s_date; wz r.s_step; wf r.s_out.o_Dry; wf r.s_out.o_Fresh; wf r.s_out.o_Pot; wf r.s_out.o_IrrTot) sr);
+  (* ---- the whole run (RunConcrete.v) ----------------------------------------------------------------------------
+     `rpar k <par tokens>`: the parameters as they are on the days of season k (k = -1: before the first planting);
+     `runc n_steps <clock0> nW <5 tokens per step> <state>`: run_till_c from the given clock/state; one output line:
+     status (F fin | R | P tsc | U), final clock + state, the rows of the three tables in chronological order, the summary rows *)
+  let season_tab : (int, float dCrop * float cropFull * float) Hashtbl.t = Hashtbl.create 8 in
+  let base_par : float dPar option ref = ref None in
+  let fallow_full : float cropFull option ref = ref None in
+  reg "rpar" (fun t ->
+    let k = ri t in
+    let soil = r_soil t in let irr = r_irr t in let firr = r_irr t in let field = r_field t in let ffield = r_field t in
+    let wt = rz t in let co2c = rf t in let co2r = rf t in let steps = rz t in let simoff = rb t in
+    let crop = r_crop t in let cf = r_cropfull t in let fcrop = r_crop t in let fcf = r_cropfull t in
+    if t.rest <> [] then raise (Bad "trailing tokens");
+    if k = -2 then (Hashtbl.reset season_tab; base_par := None);
+    Hashtbl.replace season_tab k (crop, cf, co2c);
+    fallow_full := Some fcf;
+    base_par := Some { p_soil = soil; p_irr = irr; p_fallow_irr = firr; p_field = field; p_fallow_field = ffield;
+                       p_crop = (fun _ -> fcrop); p_fallow_crop = fcrop; p_water_table = wt; p_co2c = (fun _ -> co2c); p_co2r = co2r;
+                       p_evap_steps = steps; p_sim_off = simoff };
+    ws "OK");
+  reg "rclear" (fun t -> Hashtbl.reset season_tab; base_par := None; ws "OK");
+  reg "runc" (fun t ->
+    let bp = match !base_par with Some p -> p | None -> raise (Bad "no rpar") in
+    let fcf = match !fallow_full with Some p -> p | None -> raise (Bad "no rpar") in
+    let look k = match Hashtbl.find_opt season_tab (int_of_z k) with Some x -> Some x | None -> None in
+    let par = { bp with p_crop = (fun k -> match look k with Some (c, _, _) -> c | None -> bp.p_fallow_crop);
+                        p_co2c = (fun k -> match look k with Some (_, _, c) -> c | None -> bp.p_co2c k) } in
+    let crops id = let i = int_of_z id in if i < 0 then fcf else (match Hashtbl.find_opt season_tab i with Some (_, cf, _) -> cf | None -> fcf) in
+    let nsteps = rz t in
+    let tsc = rz t in let season = rz t in let dap = rz t in let mature = rb t in let hflag = rb t in
+    let pl = rlist rz t in let hv = rlist rz t in
+    let wsl = rlist (fun t -> let rain = rf t in let tmax = rf t in let tmin = rf t in let et0 = rf t in let gw = rf t in
+                               { w_rain = rain; w_tmax = tmax; w_tmin = tmin; w_et0 = et0; w_gw = gw }) t in
+    let s = r_state t in
+    if t.rest <> [] then raise (Bad "trailing tokens");
+    let c = { n_steps = nsteps; plant = pl; harv = hv; off_season = par.p_sim_off } in
+    let m0 = { st0 = { phys = s; tsc = tsc; season = season; dap = dap; mature = mature; hflag = hflag; fin = false };
+               tabs = { rows = []; sums = [] } } in
+    let w_row (row : float dRow) =
+      let f = row.r_flux in
+      wz f.fl_tsc; wz f.fl_season; wz f.fl_dap; wf f.fl_Wr; wopt wf f.fl_zgw; wf f.fl_surf; wf f.fl_IrrDay; wf f.fl_Infl;
+      wf f.fl_Runoff; wf f.fl_DeepPerc; wf f.fl_CR; wf f.fl_GwIn; wf f.fl_Es; wf f.fl_EsPot; wf f.fl_Tr; wf f.fl_TrPot;
+      let g = row.r_growth in
+      wz g.gr_tsc; wz g.gr_season; wz g.gr_dap; wf g.gr_gdd; wf g.gr_gdd_cum; wf g.gr_z_root; wf g.gr_cc; wf g.gr_cc_ns;
+      wf g.gr_B; wf g.gr_B_ns; wf g.gr_HI; wf g.gr_HIadj; wf g.gr_Dry; wf g.gr_Fresh; wf g.gr_Pot;
+      let o = row.r_sto in
+      wz o.st_tsc; wb o.st_gs; wz o.st_dap; wfl o.st_th in
+    let w_sum r = wz r.s_season; wz r.s_date; wz r.s_step; wf r.s_out.o_Dry; wf r.s_out.o_Fresh; wf r.s_out.o_Pot; wf r.s_out.o_IrrTot in
+    match run_till_c fnum tr par crops c wsl (nat_of_int (int_of_z nsteps + 2)) m0 with
+    | None -> ws "U"
+    | Some (GRaise IndexError) -> ws "R IndexError"
+    | Some (GRaise KeyError) -> ws "R KeyError"
+    | Some (Stopped tt) -> ws "P"; wz tt
+    | Some (GOk m) ->
+      ws "F"; wz m.st0.tsc; wz m.st0.season; wb m.st0.fin; w_st m.st0;
+      let rs = List.rev m.tabs.rows in
+      wi (List.length rs); List.iter (fun (_, row) -> ws "|"; w_row row) rs;
+      let ss = List.rev m.tabs.sums in
+      ws "#"; wi (List.length ss); List.iter w_sum ss);
   main ()
